@@ -647,6 +647,26 @@ func init() {
 		Variant{Name: "benign: namespace translator skips GetSystemInfo / GetClusterInfo, which carry no namespace in either service", Property: "C12", File: "seeded-benign/C12-method-gate-cluster-scoped-only.diff", Benign: true,
 			Patch: "seeded-benign/C12-method-gate-cluster-scoped-only.diff"},
 	)
+	// ---- translator list helper (O12.5 / O14.4 follow a MatchMethod filter helper; the in-place form is O12.6 / O13.7 / O14.7)
+	addVariants(
+		Variant{Name: "benign: per-call MatchMethod filtering moved into a helper that returns a fresh slice", Property: "C12", File: "seeded-benign/C13-matching-helper-fresh-slice.diff", Benign: true,
+			Patch: "seeded-benign/C13-matching-helper-fresh-slice.diff"},
+		Variant{Name: "benign: same patch seen by C13", Property: "C13", File: "seeded-benign/C13-matching-helper-fresh-slice.diff", Benign: true,
+			Patch: "seeded-benign/C13-matching-helper-fresh-slice.diff"},
+		Variant{Name: "benign: same patch seen by C14", Property: "C14", File: "seeded-benign/C13-matching-helper-fresh-slice.diff", Benign: true,
+			Patch: "seeded-benign/C13-matching-helper-fresh-slice.diff"},
+	)
+	// ---- single-namespace guard of the search-attribute translator (O14.9)
+	addVariants(
+		Variant{Name: "benign: the multiple-namespace guard written as >= 2 on a local", Property: "C14", File: "proxy/cluster_connection.go", Benign: true,
+			Old: "\t\tif c.saTranslations.LenNamespaces() > 1 {\n", New: "\t\tif c.saTranslations.LenNamespaces() >= 2 {\n"},
+		Variant{Name: "the multiple-namespace guard only logs", Property: "C14", File: "proxy/cluster_connection.go",
+			Old: "\t\tif c.saTranslations.LenNamespaces() > 1 {\n\t\t\tpanic(\"multiple namespace search attribute mappings are not supported\")\n\t\t}\n", New: "\t\tif c.saTranslations.LenNamespaces() > 1 {\n\t\t\tc.loggers.Get(LogClusterConnection).Warn(\"multiple namespace search attribute mappings are not supported\")\n\t\t}\n", Expect: "O14.9"},
+		Variant{Name: "benign: FlattenMaps drops namespaces without field mappings (fewer matchers than the guard counts)", Property: "C14", File: "config/config.go", Benign: true,
+			Old: "\t\traw[ns] = mappings.AsMap()\n", New: "\t\tif mappings.Len() > 0 {\n\t\t\traw[ns] = mappings.AsMap()\n\t\t}\n"},
+		Variant{Name: "FlattenMaps adds a catch-all entry next to each namespace", Property: "C14", File: "config/config.go",
+			Old: "\t\traw[ns] = mappings.AsMap()\n", New: "\t\traw[ns] = mappings.AsMap()\n\t\traw[\"*\"] = mappings.AsMap()\n", Expect: "O14.9"},
+	)
 	// ---- swallowed errors and retained state (general rules)
 	addVariants(
 		Variant{Name: "blob repair error logged and dropped", Property: "C17", File: refl,
